@@ -40,12 +40,12 @@ def config(tier):
 def plan(tier, seed):
   q = tier == 'quick'
   jobs = []
-  n = 7 if q else 140
+  n = 7 if q else 84
   for i in range(n):
     for p in range(3):
       jobs.append({'kind': 'model', 'seed': seed, 'idx': i, 'pipeline': p,
                    'nsteps': 1 + (i + p) % (2 if q else 5)})
-  for i in range(2 if q else 30):
+  for i in range(2 if q else 20):
     for p in range(3):
       jobs.append({'kind': 'contact', 'seed': seed, 'idx': i, 'pipeline': p})
   # positional compiles longest
@@ -54,7 +54,7 @@ def plan(tier, seed):
 
 
 def floors(tier):
-  k = 1 if tier == 'quick' else 18
+  k = 1 if tier == 'quick' else 10
   f = {}
   for p in ('generalized', 'spring', 'positional'):
     f['ev:gradient_finite:' + p] = 18 * k
